@@ -282,7 +282,7 @@ impl Monitor for C01 {
          boundary is non-empty, or a hostile-corpus class; distinct = hash of the plain-model pair. Also: the same pairs over String labels (non-Copy) and over unit labels, and a mismatch by a permuted boundary type."
     }
     fn corpus_len(&self) -> u64 {
-        corpus().len() as u64
+        corpus().len() as u64 + 4
     }
     fn uses_iso(&self) -> bool {
         true
@@ -301,6 +301,7 @@ impl Monitor for C01 {
             ("class:mismatch_by_length", 1),
             ("class:mismatch_by_one_label", 1),
             ("class:mismatch_by_permutation", 1),
+            ("class:long_identification_chain_on_a_thread_stack", 4),
             ("class:labels_are_strings", 100),
             ("class:labels_are_unit", 100),
             ("class:types_match", 100),
@@ -317,6 +318,39 @@ impl Monitor for C01 {
             let (class, f, g) = &c[idx as usize];
             ctx.class(class);
             self.judge(ctx, class, f, g);
+            return;
+        }
+        if (idx as usize) < c.len() + 4 {
+            // chains of identifications that collapse 4*10^5 nodes into one, composed on a thread with the default
+            // 2 MiB stack: f has N distinct output nodes, g takes all of them into one node (and mirrored shapes)
+            let n = 400_000usize;
+            let shape = idx as usize - c.len();
+            let wide: P = POh { w: vec![0; n], e: vec![], s: vec![0], t: (0..n).collect() };
+            let wide_rev: P = POh { w: vec![0; n], e: vec![], s: vec![0], t: (0..n).rev().collect() };
+            let funnel: P = POh { w: vec![0], e: vec![], s: vec![0; n], t: vec![0] };
+            let (f, g): (P, P) = match shape {
+                0 => (wide, funnel),
+                1 => (wide_rev, funnel),
+                2 => (funnel.dagger(), POh { w: vec![0; n], e: vec![], s: (0..n).collect(), t: vec![n - 1] }),
+                _ => {
+                    // path: f's outputs 0..n glued pairwise through g's inputs [0,0,1,1,2,2,...]
+                    let ft: Vec<usize> = (0..n).flat_map(|i| if i == 0 || i == n - 1 { vec![i] } else { vec![i, i] }).collect();
+                    let gs: Vec<usize> = (0..n - 1).flat_map(|i| vec![i, i]).collect();
+                    (POh { w: vec![0; n], e: vec![], s: vec![0], t: ft }, POh { w: vec![0; n - 1], e: vec![], s: gs, t: vec![n - 2] })
+                }
+            };
+            ctx.class("long_identification_chain_on_a_thread_stack");
+            let (lf, lg) = (to_strict(&f), to_strict(&g));
+            let input = json!({"shape": shape, "nodes": n});
+            let res = on_thread_stack(|| lf.compose(&lg));
+            if let Some(h) = must_return(ctx, "compose", "long_chain", res, || input.clone()) {
+                let ok = match h.as_ref().and_then(|h| from_strict(h).ok()) {
+                    Some(p) => p.w == vec![0u32] && p.e.is_empty() && p.s.iter().all(|&v| v == 0) && p.t.iter().all(|&v| v == 0) && p.s.len() == f.s.len() && p.t.len() == g.t.len(),
+                    None => false,
+                };
+                ctx.check(ok, "compose/pushout/value/long_chain", || json!({"input": input, "observed_some": h.is_some()}));
+            }
+            ctx.nontrivial(&("long_chain", shape));
             return;
         }
         let params = match r.below(10) {
